@@ -5,6 +5,7 @@ import (
 	"go/constant"
 	"go/token"
 	"go/types"
+	"strings"
 
 	"golang.org/x/tools/go/ssa"
 )
@@ -697,6 +698,32 @@ func runC07(w *World, r *Report) {
 	}
 	inputKeyNarrowingChecked(w, r, "C07.converter-is-checker")
 	unpackRefusalChecks(w, r, "C07.converter-is-checker")
+	// the type / helper getters answer from what the node is NOW: they keep nothing (a pass-through node's helper is
+	// provisional until its type is inferred; a memoised provisional helper outlives the inference)
+	r.Rule("C07.getters-pure", "no get… / is… / input… / output… method of the builder types (graph, graphNode, composableRunnable, genericHelper, Chain, Workflow) stores into its receiver: what they answer follows later type inference", 5)
+	{
+		n := 0
+		for _, fn := range w.RepoFuncs("compose") {
+			if fn.Signature.Recv() == nil || fn.Parent() != nil {
+				continue
+			}
+			nm := fn.Name()
+			if !(strings.HasPrefix(nm, "get") || strings.HasPrefix(nm, "Get") || strings.HasPrefix(nm, "is") || strings.HasPrefix(nm, "Is") || strings.HasPrefix(nm, "input") || strings.HasPrefix(nm, "output") || strings.HasPrefix(nm, "component")) {
+				continue
+			}
+			n++
+			ws := receiverWrites(fn)
+			for _, rw := range ws {
+				r.Fail("C07.getters-pure", fmt.Sprintf("%s stores receiver field %s", w.fname(fn), rw.field.Name()), rw.in.Pos(), "a getter memoises its answer in the object: a pass-through node asked for its helper before its type is inferred keeps the provisional any-typed helper, hands it on to the next pass-through typed through it, and the run-time check installed on an any -> string edge then accepts everything — an int reaches the string-typed node (order-dependent: typed-then-connected works, connected-then-typed does not)")
+			}
+			if len(ws) == 0 {
+				r.OK("C07.getters-pure", w.fname(fn), fn.Pos(), "no store into the receiver")
+			}
+		}
+		if n < 5 {
+			undecidedf("C07.getters-pure: only %d getter methods found", n)
+		}
+	}
 	// pass-through nodes: a state handler on a node whose own type is only inferred later must be typed `any` exactly
 	// (the handler is never re-checked against the inferred type)
 	{
